@@ -107,8 +107,21 @@ pub fn replicate_into(scene: &mut DynamicScene, world: &World) {
                         .get_mut(&entity.id())
                         .expect("all entities should be populated ahead of time");
 
-                    debug!("adding `{type_name}` to `{}`", entity.id());
-                    components.push(component.into_partial_reflect());
+                    // The component could be already in the scene or exported by
+                    // another matching rule. Update it instead of pushing a duplicate
+                    // to keep the scene deserializable.
+                    let component = component.into_partial_reflect();
+                    if let Some(existing) = components.iter_mut().find(|existing| {
+                        existing
+                            .get_represented_type_info()
+                            .is_some_and(|info| info.type_id() == type_id)
+                    }) {
+                        debug!("updating `{type_name}` on `{}`", entity.id());
+                        *existing = component;
+                    } else {
+                        debug!("adding `{type_name}` to `{}`", entity.id());
+                        components.push(component);
+                    }
                 }
             }
         }
